@@ -808,6 +808,9 @@ static PyObject* base_syrk(PyObject *self, PyObject *args, PyObject *kwrds)
 #endif
   } else {
 
+    if (!sp_syrk[id])
+      PY_ERR_TYPE("syrk with sparse arguments requires 'd' matrices");
+
     void *z = NULL;
 #if PY_MAJOR_VERSION >= 3
     if (sp_syrk[id](uplo_, trans_,
